@@ -193,7 +193,7 @@ def run_trees(ctx, binary, seeds, thread_sets):
     runs = []
     for s in seeds:
         rng = random.Random(s)
-        tree = random_tree(rng, rng.randint(150, 400))
+        tree = random_tree(rng, rng.randint(150, 400) if ctx.thorough else rng.randint(110, 170))
         base = os.path.join(ctx.work, "tree-%d" % s)
         src = os.path.join(base, "src")
         os.makedirs(src)
@@ -318,7 +318,7 @@ def run(ctx):
     if classes:
         ctx.log("violation classes: %s" % json.dumps(classes, sort_keys=True))
     ctx.cov["rule"] = ("A/B: every world of Checkout_Gen (indices of <= %d of 10 alphabet entries x 5 initial destinations x overwrite) checked out in a sandbox "
-                       "and judged from before/after snapshots; seeded conflict-free trees (170-430 entries) at several thread limits. Non-trivial = worlds "
+                       "and judged from before/after snapshots; seeded conflict-free trees (130-430 entries) at several thread limits. Non-trivial = worlds "
                        "with a colliding entry or a non-empty destination, and every tree run; distinct by (index, destination, overwrite) / (seed, threads)."
                        % (3 if ctx.thorough else 2))
     ctx.assumptions += ["Linux, case-sensitive file system with symlinks and executable bits",
